@@ -15,6 +15,9 @@
 (*                 template with Ctx2: [lv, probe, comp, short, slot]        *)
 (* Values are typed: int i, str s, float s, bool b, none, list items, dict  *)
 (* items (sequence of [k, v]), other s.  (A str marked safe counts as str.) *)
+(* Containers carry their Python type as t: the iterables TagArgs!SeqKinds   *)
+(* (list, tuple, range, keys - items) and the mappings TagArgs!MapKinds      *)
+(* (dict, odict, mproxy, chainmap, userdict - items: sequence of [k, v]).    *)
 (* A record is accepted when text = Text(args, style) and, on both paths,   *)
 (* the received values are Denote(args) with leaves replaced by the         *)
 (* recorded stock values (looked up by the specification's own canonical    *)
@@ -39,9 +42,9 @@ Same(a, b) ==
        [] a.t \in {"str", "float", "other"} -> a.s = b.s
        [] a.t = "bool"  -> a.b = b.b
        [] a.t = "none"  -> TRUE
-       [] a.t = "list"  -> /\ Len(a.items) = Len(b.items)
+       [] a.t \in SeqKinds -> /\ Len(a.items) = Len(b.items)
                            /\ \A i \in 1..Len(a.items) : Same(a.items[i], b.items[i])
-       [] a.t = "dict"  -> /\ Len(a.items) = Len(b.items)
+       [] a.t \in MapKinds -> /\ Len(a.items) = Len(b.items)
                            /\ \A i \in 1..Len(a.items) : \E j \in 1..Len(b.items) :
                                  Same(a.items[i].k, b.items[j].k) /\ Same(a.items[i].v, b.items[j].v)
        [] OTHER         -> FALSE
@@ -61,7 +64,8 @@ Dedupe(es) ==
   IN Pick(1)
 
 RECURSIVE Ev(_, _), EvItems(_, _, _), EvEntries(_, _, _)
-ItemsOf(v) == IF v.t \in {"list", "dict"} THEN v.items ELSE <<Unknown>>
+\* what a spread takes out of a value: the items of an iterable that is no mapping (of any type)
+ItemsOf(v) == IF v.t \in SeqKinds THEN v.items ELSE <<Unknown>>
 Ev(v, lv) ==
   CASE v.t = "leaf"   -> Lookup("leaf", v.e, lv)
     [] v.t = "render" -> Lookup("render", v.e, lv)
@@ -78,7 +82,8 @@ KeyVal(k, lv) == IF k.t = "name" THEN St(k.s) ELSE Ev(k, lv)
 EvEntries(items, i, lv) ==
   IF i > Len(items) THEN <<>>
   ELSE (IF IsSplice(items[i])
-        THEN LET d == Ev(items[i].of, lv) IN IF d.t = "dict" THEN d.items ELSE <<E(Unknown, Unknown)>>
+        \* ... and the entries of a mapping (of any type)
+        THEN LET d == Ev(items[i].of, lv) IN IF d.t \in MapKinds THEN d.items ELSE <<E(Unknown, Unknown)>>
         ELSE <<E(KeyVal(items[i].k, lv), Ev(items[i].v, lv))>>)
        \o EvEntries(items, i + 1, lv)
 
